@@ -60,8 +60,8 @@ var two53 = new(big.Int).Lsh(big.NewInt(1), 53)
 
 func (n *node) shapeInto(s *shape, d int) {
 	s.nodes++
-	if d > s.depth {
-		s.depth = d
+	if (n.k == kArr || n.k == kObj) && d > s.depth {
+		s.depth = d // container nesting level (top-level object = 1)
 	}
 	switch n.k {
 	case kNull:
